@@ -99,10 +99,11 @@ Slots ==
        P_www, <<72,84,84,80,58,47,47>>, <<109,97,105,108,116,111,58>>},  \* http:// https:// ftp:// javascript: www. HTTP:// mailto:
       {<<97,46,99,111,109>>, X(17), X(18), X(19), X(30) \o <<46,99,111,109>>},                    \* a.com x17 x18 x19 x30.com
       {<<>>, <<34>>, <<38>>, <<47>>, <<47,97,98,99,100,38,120>>, <<47,97,98,34,99,100>>, <<47,97,46,98,63,99,61,100>>,
-       <<63,113,61,49,38,114,61,50>>, <<40,120,41>>},             \* "" " & / /abcd&x /ab"cd /a.b?c=d ?q=1&r=2 (x)
+       <<63,113,61,49,38,114,61,50>>, <<40,120,41>>, <<59,34>>, <<47,97,59,98,99,100,38,120>>, <<47,59,97,59,98,38,34>>},
+                         \* "" " & / /abcd&x /ab"cd /a.b?c=d ?q=1&r=2 (x)  ;"  /a;bcd&x  /;a;b&"   (literal ';' before a cut entity)
       {<<>>, X(20), <<47>> \o X(20), <<46>>, <<34>>} \cup (IF Level >= 2 THEN {<<41>>, <<32,101,110,100>>, <<60>>} ELSE {})>>
                                                                    \* "" x20 /x20 . "  ) " end" <
-FreeTokens == Chars({97, 32, 38, 34, 39, 60, 62, 40, 41, 46, 47, 58, 233, 128512}) \cup {P_http, P_www, <<97,46,99,111,109>>, X(31)}
+FreeTokens == Chars({97, 32, 38, 34, 39, 60, 62, 40, 41, 46, 47, 58, 59, 233, 128512}) \cup {P_http, P_www, <<97,46,99,111,109>>, X(31)}
 
 Ref(fn, x) == [rel |-> "LinkifyOk"]
 Fns == {"linkify"}
